@@ -3,10 +3,58 @@ CONFIG = {
     "driver": "c12_driver.ml",
     "model_module": "c12_model",
     "level": "proof",
-    "level_text": "work in progress",
-    "level_note": "work in progress",
-    "trusted_base": [],
-    "assumptions": [],
+    "level_text": (
+        "Coq theorems (no axioms) about executable models of hmtx/hhea, head (+ timestamps), maxp, the post header, OS/2 "
+        "and of the fields Font.Write derives. hmtx_roundtrip: for all width / side-bearing vectors of equal length >= 1 "
+        "with Int16 entries, every length of constant tail and numberOfHMetrics <= 65535 (in particular every glyph count "
+        "1..65535), Decode(Encode(info)) returns widths, side bearings, ascent, descent, line gap, caret slope rise/run and "
+        "caret offset unchanged; hmtx_numlong_least: numberOfHMetrics is the least k >= 1 whose table reads back; "
+        "hhea_aggregates: advanceWidthMax, minLeftSideBearing, minRightSideBearing, xMaxExtent written into hhea equal "
+        "their OpenType definitions over the glyphs with a non-zero box (0 when none) and are the extrema they are named "
+        "after; head_roundtrip (all 2^8 flag/style combinations, any unitsPerEm, timestamps by time_roundtrip: every "
+        "int64 Unix second except 1904-01-01T00:00:00Z, to the second), maxp_roundtrip, post_header_roundtrip (italic "
+        "angle as 16.16 integer, underline metrics, isFixedPitch), os2_roundtrip (style, permission and code-page bits, "
+        "Unicode ranges, all metrics) on their normal forms, and *_decode_fixpoint: whatever each decoder accepts (OS/2 "
+        "under every version 0..5 and table length) is in the normal form, so bytes->Info->bytes->Info is stable; "
+        "fontbbox_union, avg_width_def, first_last_char_def, fixed_pitch_def, writer_derived_fields: FontBBox = union of "
+        "the non-empty proper glyph boxes, xAvgCharWidth = nearest integer to the mean positive width, first/last "
+        "character = min/max code point clamped to 0xFFFF, isFixedPitch iff all non-zero widths agree; "
+        "version_round_idempotent / version_round_keeps_string for head.Version; *_decode_total for C02. "
+        "PARTIAL: the float code is not modelled - caret angle <-> rise/run (atan2, sin, cos, bestRationalApproximation; "
+        "the model takes fromAngle's rise/run as input), arbitrary float64 italic angles and CFF widths, and the "
+        "PDF-unit queries (WidthsPDF, GlyphWidthPDF, FontBBoxPDF); these are checked on the real code only, with exact "
+        "math/big rationals. post version 2.0 name data is left to C14. "
+        "The models are tied to the code by regenerated constants (hheaLength, headLength, zeroTime and every bit mask / "
+        "version threshold of head.Read/Encode, os2.Read/Encode, maxp.Read, hmtx.Decode: theorem "
+        "model_constants_match_source) and by running each Encode/Decode pair, encodeTime/decodeTime, Version.Round/String "
+        "and (*sfnt.Font).Write (glyf and CFF fonts, tables re-read from the written file with an independent directory "
+        "parser) against the extracted models on generated cases."
+    ),
+    "level_note": (
+        "Trusted: Coq kernel; extraction (ExtrOcamlBasic) and the OCaml driver; the Go harness with its oracles (Go-level "
+        "round trips, independent readers of the table layouts written from the OpenType descriptions, definitions "
+        "computed in plain integer / big.Rat arithmetic, golang.org/x/image/font/sfnt as an independent reader of the "
+        "written fonts); the verif hook wrappers. The Go code is modelled, not verified. Two defects found were repaired "
+        "(hhea extents ignoring Info.LSB; Version.Round vs String at ties); one is recorded open (the second "
+        "1904-01-01T00:00:00Z reads back as 'no timestamp')."
+    ),
+    "trusted_base": [
+        "modelled, not verified: hmtx/hmtx.go (Info.Encode, Decode), head/head.go (Read, Info.Encode, Version.Round/String), head/time.go, maxp/maxp.go, os2/os2.go (Read, Info.Encode), post/post.go (the 32-byte header of Read / Info.Encode), write.go makeHead/makeHmtx/makeOS2/makePost, font.go FontBBox/IsFixedPitch/Widths/GlyphBBoxes, cmap Format4/Format12.CodeRange, funit.Rect16.IsZero/Extend",
+        "encoding/binary.Read of a fixed-size struct and io.ReadFull are all-or-nothing (any short read is an error): the models read field by field and return Err when the bytes run out",
+        "time.Time: IsZero() <-> Unix() = -62135596800 and Nanosecond() = 0; time.Unix(s, 0).Unix() = s for every int64 s (wrap-around included); checked on every run on the boundary values",
+        "float64 arithmetic of Version.Round/String is exact on uint32/65536*1000 (42 significant bits) and the second rounding never meets a tie (argued in Model3.v); checked against the Go code on random and tie values, thorough tier 20000 values",
+        "unmodelled float code (caret angle, non-grid italic angles, PDF-unit queries): oracle only",
+        "verif hooks (add-only, //go:build verif): /repo/hmtx/verif_hooks_c12.go (fromAngle, toAngle, bestRationalApproximation), /repo/head/verif_hooks_c12.go (encodeTime, decodeTime)",
+    ],
+    "assumptions": [
+        "hmtx: Widths, LSB (or GlyphExtents when LSB is nil) and GlyphExtents have equal lengths (Encode documents a panic otherwise; the model has the same Panic outcomes)",
+        "hhea aggregates: advance widths are non-negative and each glyph's aw - (lsb + xMax - xMin) and lsb + xMax - xMin fit Int16 (the hhea fields are Int16; outside, the Int16 arithmetic wraps: hhea_rsb_wrap_refuted)",
+        "FontBBox: glyph boxes have xMin <= xMax and yMin <= yMax (fontbbox_union_improper_refuted otherwise)",
+        "derived fields: integer advance widths (glyf fonts; CFF fonts with integer widths)",
+        "timestamps: not the second 1904-01-01T00:00:00Z (open finding c12-head-time-1904-epoch-reads-as-unset)",
+        "OS/2 normal form: IsRegular excludes IsBold/IsItalic, 4-byte vendor tag, PermUse in 0..3, Unicode-range bit 57 follows LastCharIndex = 0xFFFF, cap height and x-height non-negative (what an OS/2 table can express)",
+        "Version.Round: v < 4294967264 (above, the result 2^32 does not fit uint32 and Go's conversion is platform dependent)",
+    ],
     "coq_timeout": 900,
     "gen_timeout": 1800,
 }
